@@ -431,6 +431,7 @@ impl Value {
     pub fn separator(&self) -> ListSeparator {
         match self {
             Value::List(_, list_separator, _) => *list_separator,
+            Value::Map(m) if m.is_empty() => ListSeparator::Undecided,
             Value::Map(..) | Value::ArgList(..) => ListSeparator::Comma,
             _ => ListSeparator::Space,
         }
